@@ -65,7 +65,7 @@ structure ModuleSpec where
   inputs : List (Nat × PortType)
   outputs : List (Nat × PortType)
   caps : List Nat
-  deriving Repr
+  deriving DecidableEq, Repr
 
 structure Wire where
   srcM : Nat
